@@ -195,8 +195,8 @@ def run_case(case, ctx):
       where = "block %d (%s-%s) k=%d r=%s route=%s" % (idx, a, b, k, mp.nstr(r, 12), route)
       d_ref = o.deriv(r)
       drift = (k + 4) * mp.mpf("2.3e-16") * r
-      oracle.check_token(ctx, "energy", blk["energies"][i], o.value(r), o.vscale(r), where=where, mag=o.mag(r), abs_=abs(d_ref) * drift)
-      if (not o.analytic) and oracle.near_break(r, o.breaks):
+      oracle.check_value(ctx, "energy", blk["energies"][i], o, r, where=where, abs_=abs(d_ref) * drift)
+      if oracle.on_break(r, o.breaks, 1e-9) or ((not o.analytic) and oracle.near_break(r, o.breaks)):
         ctx.count("force_rows_skipped_at_breakpoint")
         continue
       f_ref = -r * d_ref
